@@ -22,7 +22,7 @@ from WallGo.grid import Grid
 
 from symx import core, npx
 from symx.core import AND, Cond, Sym, close, eq
-from symx.harness import HarnessDef
+from symx.harness import HarnessDef, bare
 
 EXPLANATION = __doc__
 BOUNDS = {"grids": "M in {3,4}, N in {3,5} quick; N=7 thorough; momentum scale T0 in {1, 0.37, 25}",
@@ -61,7 +61,7 @@ def make_solver(h, M, N, T0, basisM, basisN, nparticles, rescale=False):
         grid.changeMomentumFalloffScale(T0)
     else:
         grid = Grid(M, N, 1.3, T0)
-    bs = BZ.BoltzmannSolver.__new__(BZ.BoltzmannSolver)
+    bs = bare(BZ.BoltzmannSolver)
     bs.grid = grid
     bs.basisM, bs.basisN = basisM, basisN
     bs.derivatives = "Spectral"
@@ -146,9 +146,9 @@ def _contract(Tm, arr, axis):
     return np.moveaxis(out, -1, axis)
 
 
-def h_tmunu(h, nparticles, npts):
+def h_tmunu(h, nparticles, npts, history=False):
     h.patch(EOMM, float=npx.symfloat, np=npx.NP())
-    eom = EOMM.EOM.__new__(EOMM.EOM)
+    eom = bare(EOMM.EOM)
     parts, ms = [], []
     for k in range(nparticles):
         m0 = h.real(f"msq{k}_0", -10, 10, default=0.3 + k)
@@ -165,8 +165,11 @@ def h_tmunu(h, nparticles, npts):
         D[name] = types.SimpleNamespace(coefficients=h.reals(name, (nparticles, npts), -1, 1))
     Dn = types.SimpleNamespace(**D)
     fp = FieldPoint(np.array([phi], dtype=object if h.symbolic else float))
-    g2 = 1 / (1 - v * v)
-    for index in range(npts):
+    # history: the same EOM object is asked again at another wall velocity (every solveWall does
+    # that); the answer depends on the arguments of the call only
+    vels = [v, h.real("velocityMid2", -0.999, 0.999, default=0.2), v] if history else [v]
+    for index, v in [(i, u) for u in vels for i in range(npts)]:
+        g2 = 1 / (1 - v * v)
         T30, T33 = eom.deltaToTmunu(index, fp, v, Dn)
         w30, w33 = 0.0, 0.0
         for i in range(nparticles):
@@ -194,8 +197,10 @@ HARNESSES = [
     HarnessDef("getDeltas", h_deltas, _DQ, _DT, max_paths=4, timeout_s=120,
                encodes=[BZ.BoltzmannSolver.getDeltas, PM.Polynomial.integrate, PM.Polynomial.changeBasis,
                         Grid.getCompactificationDerivatives, Grid.decompactify], random_validation=1),
-    HarnessDef("deltaToTmunu", h_tmunu, [dict(nparticles=1, npts=1), dict(nparticles=2, npts=2)],
-               [dict(nparticles=1, npts=1), dict(nparticles=2, npts=2), dict(nparticles=3, npts=2)],
+    HarnessDef("deltaToTmunu", h_tmunu, [dict(nparticles=1, npts=1), dict(nparticles=2, npts=2),
+                                         dict(nparticles=1, npts=1, history=True)],
+               [dict(nparticles=1, npts=1), dict(nparticles=2, npts=2), dict(nparticles=3, npts=2),
+                dict(nparticles=2, npts=2, history=True)],
                max_paths=4, timeout_s=60, encodes=[EOMM.EOM.deltaToTmunu], random_validation=3),
 ]
 
